@@ -177,6 +177,11 @@ func HarnessC18ParseShape(a []int) {
 			verifAssume(dg <= 9)
 			s = append(s, '0'+dg)
 			x = x*10 + int(dg)
+			if x > 1000000 {
+				// far beyond every component range (at most 65535) and growing with every further
+				// digit: saturate, so that components of twenty and more digits do not wrap the oracle
+				x = 1000000
+			}
 		}
 		if neg {
 			x = -x
